@@ -1,11 +1,11 @@
 SPECIFICATION Spec
-CONSTANTS MaxVer = 2
+CONSTANTS MaxVer = 3
           MaxParts = 1
-          MaxCrash = 1
+          MaxCrash = 2
           MaxGrow = 1
-          TornHeader = TRUE
+          TornHeader = FALSE
           SyncBeforeFlip = TRUE
-          PickNewer = FALSE
+          PickNewer = TRUE
           SavepointTwoPhase = FALSE
           RepairSync = TRUE
           SavepointPreFlush = TRUE
